@@ -191,6 +191,61 @@ def rule_send_refusal(ctx):
         raise AnalysisError(f"[C16.3-send-refusal] sendMessage outside the modelled subset: {e}")
 
 
+def rule_prepared_send_refusal(ctx):
+    """sendPreparedMessage(): a prepared message that goes out pre-framed (no compression extension, or doNotCompress) is subject to the same
+    local limit as sendMessage(); otherwise it is handed to sendMessage(), which applies the limit to the compressed length."""
+    from ..core.tiny import Tiny, Sym, Buf
+    import itertools
+    ctx.rule("C16.3-send-refusal")
+    wsp = ctx.program.cls(WSP)
+    fn = wsp.methods["sendPreparedMessage"]
+    ctx.analysed(fn)
+    S_OPEN = ctx.program.class_const(wsp, "STATE_OPEN")
+    pi = ctx.program.func("autobahn.websocket.protocol.PreparedMessage.__init__")
+    # attributes of a prepared message that hold the payload length: assigned from len(payload) (possibly through a local)
+    from .common import canon_text
+    len_attrs = {s_.targets[0].attr for s_ in walk_no_defs(pi.node) if isinstance(s_, ast.Assign) and is_self_attr(s_.targets[0]) and canon_text(pi, s_.value) == f"len({pi.params()[1]})"}
+    body = [x for x in fn.node.body if not (isinstance(x, ast.Expr) and isinstance(x.value, ast.Constant))]
+    probs, cells = [], 0
+    try:
+        for M, n_, ext, dnc in itertools.product((0, 64), (0, 63, 64, 65, 200), (False, True), (False, True)):
+            cells += 1
+            written, delegated = [], []
+
+            def default(f_, a_, k_=None):
+                if f_ == "self.sendData":
+                    written.append(a_[0])
+                    return None
+                if f_ == "self.sendMessage":
+                    delegated.append(list(a_))
+                    return None
+                return Sym(f"<{f_}>")
+            framed = Buf(0, n_ + 2)
+            pm = Sym("prepared-message", payloadHybi=framed, doNotCompress=dnc, payload=Buf(0, n_), binary=True, **{a_: n_ for a_ in len_attrs})
+            env = {"self": Sym("protocol"), fn.params()[1]: pm, "self.state": S_OPEN, "WebSocketProtocol.STATE_OPEN": S_OPEN, "self.maxMessagePayloadSize": M,
+                   "self._perMessageCompress": Sym("pmce") if ext else None, "self.wasMaxMessagePayloadSizeExceeded": False}
+            t = Tiny(env, default_call=default, inline_self=inline_private(ctx, wsp, exclude=("_trigger", "_fail_connection")))
+            r = t.run(body)
+            cell = f"limit {M}, prepared payload {n_} octets, extension {'active' if ext else 'absent'}, doNotCompress={dnc}"
+            raw = (not ext) or dnc
+            if raw:
+                over = M > 0 and n_ > M
+                refused = r[0] == "raise" and "PayloadExceededError" in str(r[1])
+                if r[0] == "raise" and not refused:
+                    probs.append(f"{cell}: raises {str(r[1])[:60]}")
+                elif over and (not refused or written):
+                    probs.append(f"{cell}: the over-limit message is {'written' if written else 'not refused'} ({len(written)} write(s)) although sendMessage() refuses the same payload")
+                elif not over and (refused or written != [framed]):
+                    probs.append(f"{cell}: {'refused' if refused else 'writes ' + str(written)}, expected the pre-framed octets to be written once")
+            else:
+                if not (len(delegated) == 1 and not written and r[0] != "raise"):
+                    probs.append(f"{cell}: expected to be handed to sendMessage() (which compresses and applies the limit); {len(delegated)} hand-over(s), {len(written)} direct write(s)")
+        ctx.ob(f"sendPreparedMessage: a pre-framed message over the local limit is refused (PayloadExceededError, nothing written); compressed ones go through sendMessage [{cells} cells]",
+               not probs, "; ".join(sorted(set(probs))[:2]), fn.loc())
+    except AnalysisError as e:
+        raise AnalysisError(f"[C16.3-send-refusal] sendPreparedMessage outside the modelled subset: {e}")
+
+
 def _accounting_cells(ctx, cls, f, name):
     """The over-limit decision is about the MESSAGE, which arrives in pieces: cell-wise over (limit, octets inflated by earlier calls, what this
     piece inflates to, already refused): the inflater is asked for (remaining allowance + 1) octets; the call raises PayloadExceededError
@@ -351,4 +406,5 @@ def run(ctx):
     rule_early_check(ctx)
     rule_gates(ctx)
     rule_send_refusal(ctx)
+    rule_prepared_send_refusal(ctx)
     rule_bounded_decompress(ctx)
